@@ -4,8 +4,9 @@
 //! alphabet = {blank, 5 statements} x {no comment, `ast-grep-ignore` with 5 id lists}
 //! (statement absent + comment = own-line comment; statement + comment = trailing comment), in
 //! JavaScript, Python and Html, x every non-empty subset of {r1, r2} x separate_fix in {false, true},
-//! with the `unused-suppression` rule enabled. Sub-grids: id-list spelling variants, and (thorough)
-//! all lines inside an indented block.
+//! with the `unused-suppression` rule enabled. Sub-grids: id-list spelling variants (<= 2 lines,
+//! thorough 3), and all lines inside an indented block (<= 2 lines, thorough 3; spelling variants
+//! there <= 1, thorough 2).
 //!
 //! Reference `ref_suppress` is a set comprehension over (finding, comment) pairs of what the
 //! generator planted; it never looks at the syntax tree.
@@ -629,7 +630,7 @@ fn eval_layout(
     if two_comment_line {
       st.with_two_comments_line.fetch_add(1, Ordering::Relaxed);
     }
-    let exp_json = json!({
+    let exp_json = || json!({
       "reported": exp.reported.iter().map(|(r, s)| (RULE_IDS[*r].to_string(), json!(s.iter().map(|x| json!({"line": x.0, "range": [x.1, x.2]})).collect::<Vec<_>>()))).collect::<serde_json::Map<_, _>>(),
       "unused_comments": exp.unused.iter().map(|&i| json!({"line": lay.comments[i].line, "range": [lay.comments[i].range.0, lay.comments[i].range.1]})).collect::<Vec<_>>(),
     });
@@ -640,7 +641,7 @@ fn eval_layout(
       let case = |extra: Value| {
         let mut c = json!({
           "lang": spec.name, "block": block, "table": tab_name, "lines": lines, "rules": rules_json,
-          "separate_fix": separate_fix, "source": lay.source, "expected": exp_json,
+          "separate_fix": separate_fix, "source": lay.source, "expected": exp_json(),
         });
         for (k, v) in extra.as_object().unwrap() {
           c[k] = v.clone();
